@@ -90,6 +90,22 @@ class HistRunner:
                 p.sources[n]['i'] += 1
             p.write_source(self.top, n, self.clock)
             m.touch_src(n)
+        elif k == 'edit_keep':
+            # new content of the same length, put in place by rename, with the modification time of the old file (cp -p, rsync -t,
+            # a restored tree): only the inode (and the bytes) tell that the file is another one
+            n = op[1]
+            fp = self.path(n)
+            old = self.p.src_bytes(n)
+            p.sources[n]['r'] += 1
+            new = self.p.src_bytes(n)
+            if len(new) != len(old) or not os.path.isfile(fp):
+                p.sources[n]['r'] -= 1
+                return False
+            st = os.stat(fp)
+            write_file(fp + '.keeptmp', new)
+            os.utime(fp + '.keeptmp', ns=(st.st_atime_ns, st.st_mtime_ns))
+            os.rename(fp + '.keeptmp', fp)
+            m.touch_src(n)
         elif k == 'edit_back':
             n = op[1]
             if p.sources[n]['r'] <= 0:
